@@ -38,6 +38,7 @@ var mfGuard = guardSpec{
 }
 
 func c17(c *Ctx) {
+	c17CacheMissNotSurfaced(c, "C17.6/chunk-cache-miss-is-not-a-read-error")
 	c17FullReads(c, "C17.5/header-read-is-full")
 	c17RefCountedClose(c, "C17.4/chunk-closed-only-without-readers")
 	// a rewind that stays inside the write buffer moves an index INTO the buffer: with retryable sync the bytes already
@@ -538,5 +539,154 @@ func c17FullReads(c *Ctx, r string) {
 	}
 	if n < 2 {
 		c.undecided(r, "floor", fmt.Sprintf("%d header reads (Read / io.ReadFull) found in the appendables (2 in singleapp.Open when the rule was armed)", n))
+	}
+}
+
+// c17CacheMissNotSurfaced: the cache of opened chunk files answers cache.ErrKeyNotFound when a chunk is not (or no
+// longer) cached: that is a fact about the cache, not about the bytes. Between the moment a reader opened and cached a
+// chunk and the moment it picks it up, a concurrent reader may evict it; the error of that lookup must not travel up to
+// ReadAt's caller. In appendableFor (what ReadAt uses), no return carries the error of appendableCache.Get, directly or
+// through a helper, unless errors.Is(err, cache.ErrKeyNotFound) was found false on the way.
+func c17CacheMissNotSurfaced(c *Ctx, r string) {
+	isKeyNotFoundTest := func(v ssa.Value) (ssa.Value, bool) {
+		cl, ok := v.(*ssa.Call)
+		if !ok || calleeName(&cl.Call) != "errors.Is" || len(cl.Call.Args) != 2 {
+			return nil, false
+		}
+		if !strings.Contains(desc(cl.Call.Args[1]), "ErrKeyNotFound") {
+			return nil, false
+		}
+		return cl.Call.Args[0], true
+	}
+	// the error values a returned error can be: through phis, named-result spills and extracts
+	var sourcesOf func(v ssa.Value, at ssa.Instruction, seen map[ssa.Value]bool) []*ssa.Call
+	sourcesOf = func(v ssa.Value, at ssa.Instruction, seen map[ssa.Value]bool) []*ssa.Call {
+		if v == nil || seen[v] {
+			return nil
+		}
+		seen[v] = true
+		switch x := v.(type) {
+		case *ssa.Phi:
+			var out []*ssa.Call
+			for _, e := range x.Edges {
+				out = append(out, sourcesOf(e, at, seen)...)
+			}
+			return out
+		case *ssa.Extract:
+			if cl, ok := x.Tuple.(*ssa.Call); ok {
+				return []*ssa.Call{cl}
+			}
+		case *ssa.Call:
+			return []*ssa.Call{x}
+		case *ssa.UnOp:
+			if x.Op == token.MUL {
+				if a, ok := x.X.(*ssa.Alloc); ok {
+					var out []*ssa.Call
+					for _, rf := range *a.Referrers() {
+						if st, ok := rf.(*ssa.Store); ok && st.Addr == ssa.Value(a) {
+							out = append(out, sourcesOf(st.Val, at, seen)...)
+						}
+					}
+					return out
+				}
+			}
+		}
+		return nil
+	}
+	memo := map[*ssa.Function]int{} // 0 unknown, 1 in progress / no, 2 leaks
+	var witness string
+	var leaks func(f *ssa.Function, depth int) bool
+	leaks = func(f *ssa.Function, depth int) bool {
+		if f == nil || len(f.Blocks) == 0 || depth > 4 {
+			return false
+		}
+		if m := memo[f]; m != 0 {
+			return m == 2
+		}
+		memo[f] = 1
+		res := false
+		allInstrs(f, false, func(in ssa.Instruction) {
+			rt, ok := in.(*ssa.Return)
+			if !ok || len(rt.Results) == 0 || res {
+				return
+			}
+			ev := rt.Results[len(rt.Results)-1]
+			if !isErrorType(ev.Type()) {
+				return
+			}
+			for _, cl := range sourcesOf(unspill(ev, rt), rt, map[ssa.Value]bool{}) {
+				n := calleeName(&cl.Call)
+				fromCache := n == "embedded/appendable/multiapp.(appendableCache).Get"
+				if !fromCache {
+					if sc := cl.Call.StaticCallee(); sc != nil && fnInPkgs(sc, []string{"embedded/appendable/multiapp"}) && leaks(sc, depth+1) {
+						fromCache = true
+					}
+				}
+				if !fromCache {
+					continue
+				}
+				// discriminated: errors.Is(<this error>, ErrKeyNotFound) is false on an edge dominating the return
+				disc := false
+				for _, b := range f.Blocks {
+					if len(b.Instrs) == 0 {
+						continue
+					}
+					ifi, ok := b.Instrs[len(b.Instrs)-1].(*ssa.If)
+					if !ok {
+						continue
+					}
+					cnd, pol := ifi.Cond, true
+					for {
+						u, ok := cnd.(*ssa.UnOp)
+						if !ok || u.Op != token.NOT {
+							break
+						}
+						cnd, pol = u.X, !pol
+					}
+					arg, ok := isKeyNotFoundTest(cnd)
+					if !ok {
+						continue
+					}
+					same := false
+					for _, s2 := range sourcesOf(arg, ifi, map[ssa.Value]bool{}) {
+						if s2 == cl {
+							same = true
+						}
+					}
+					if !same {
+						continue
+					}
+					succ := 1 // errors.Is(...) false
+					if !pol {
+						succ = 0
+					}
+					if edgeDominates(b, succ, rt.Block()) {
+						disc = true
+					}
+				}
+				if !disc {
+					res = true
+					witness = "the lookup at " + c.pos(cl.Pos())
+				}
+			}
+		})
+		if res {
+			memo[f] = 2
+		}
+		return res
+	}
+	f := c.mustFn(r, "embedded/appendable/multiapp.(*MultiFileAppendable).appendableFor")
+	if f == nil {
+		return
+	}
+	if leaks(f, 0) {
+		c.fail(r, fnName(f)+":cache-lookup-error", strings.TrimPrefix(witness, "the lookup at "), "the error of the chunk-cache lookup ("+witness+") reaches ReadAt's caller without having been told apart from cache.ErrKeyNotFound: a chunk evicted by a concurrent reader between open and pick-up turns into a failed read of bytes that are on disk")
+	} else {
+		c.ok(r, fnName(f)+":cache-lookup-error", c.pos(f.Pos()), "no return carries an undiscriminated chunk-cache lookup error")
+	}
+	// the rule is alive: the helper that does the lookups does return such errors
+	nGet := len(c.callSites(callTo("embedded/appendable/multiapp.(appendableCache).Get")))
+	if nGet < 3 {
+		c.undecided(r, "floor", fmt.Sprintf("%d lookups of the chunk cache found", nGet))
 	}
 }
